@@ -75,7 +75,14 @@ def gen_call_2d(rng, last=None):
                 mc = rng.choice([v for v in (None, 0, 1, 2) if v != mc])
         last['p'] = (px, pz, mc)
         kw = {'poly_order': [px, pz] if (px != pz or rng.random() < 0.5) else px, 'max_cross': mc}
-        w = rng.choice([None, None, 'ok', 'ok', 'bad']) if rng.random() < 0.6 else None
+        w = rng.choice([None, None, 'ok', 'pool', 'pool', 'bad']) if rng.random() < 0.6 else None
+        if 'pool_call' in last and rng.random() < 0.4:
+            m, px, pz, mc = last['pool_call']
+            kw = {'poly_order': [px, pz], 'max_cross': mc}
+            last['p'] = (px, pz, mc)
+            w = 'pool'
+        if w == 'pool':
+            last['pool_call'] = (m, px, pz, mc)
     elif r < 0.65:
         m = rng.choice(['iasls', 'pspline_iasls'])
         kw = {'diff_order': rng.choice([2, 2, 3, 1])}
@@ -107,12 +114,14 @@ def gen_call_2d(rng, last=None):
         elif t < 0.12:
             do[0] = k[0] + k[2] - 1
         kw = {'num_knots': [k[0], k[1]], 'spline_degree': [k[2], k[3]], 'diff_order': do}
-        w = rng.choice([None, None, None, 'ok', 'bad'])
+        w = rng.choice([None, None, None, 'ok', 'pool', 'bad'])
     else:
         m = rng.choice(sorted(PLAIN2))
     t = rng.random()
     if t < 0.05:
         data = 'short'
+    elif t > 0.75:
+        data = 'pool'
     elif t < 0.08:
         data = 'nan'
     elif t < 0.10:
@@ -125,7 +134,7 @@ def pair(v):
 
 
 def data_shape(call, M, N):
-    return {'ok': (M, N), 'nan': (M, N), 'short': (M, N - 1), 'none': None}[call['data']]
+    return {'ok': (M, N), 'pool': (M, N), 'nan': (M, N), 'short': (M, N - 1), 'none': None}[call['data']]
 
 
 def pre_raise_2d(call):
@@ -152,7 +161,7 @@ def item_2d(call, M, N, raised):
         return d if isinstance(d, (int, list, tuple)) and not isinstance(d, bool) else fallback
     sh = data_shape(call, M, N)
     base = sh if sh is not None else (0, 0)
-    wl = None if w is None else (base if w == 'ok' else (base[0] + 1, base[1]))
+    wl = None if w is None else (base if w in ('ok', 'pool') else (base[0] + 1, base[1]))
     px, pz = pair(val('poly_order', 0))
     k1, k2 = pair(val('num_knots', 0))
     d1, d2 = pair(val('spline_degree', 0))
@@ -203,9 +212,13 @@ def make_axes(kind, M, N):
             'unsorted': (x[::-1].copy(), z)}[kind]
 
 
-def call_args_2d(call, M, N, y):
-    from .c03 import SPEED  # noqa: F401  (1-D table unused here; keeps import order explicit)
-    data = {'ok': y, 'none': None, 'short': y[:, :-1], 'nan': None}[call['data']]
+def call_args_2d(call, M, N, y, pool=None, idx=0, fresh=False):
+    from .c03 import refill
+    data = {'ok': y, 'pool': y, 'none': None, 'short': y[:, :-1], 'nan': None}[call['data']]
+    if call['data'] == 'pool' and pool is not None:
+        if not fresh:
+            refill(pool['y'], y, idx)
+        data = pool['y'].copy() if fresh else pool['y']
     if call['data'] == 'nan':
         data = y.copy()
         data[M // 2, N // 3] = np.nan
@@ -215,8 +228,12 @@ def call_args_2d(call, M, N, y):
     if call['m'] == 'collab_pls':
         data = np.array([y, 1.1 * y + 1])
     sh = data_shape(call, M, N) or (M, N)
-    if call['w'] == 'ok':
+    if call['w'] == 'ok' or (call['w'] == 'pool' and (pool is None or sh != (M, N))):
         kw['weights'] = np.linspace(0.5, 1.5, sh[0] * sh[1]).reshape(sh)
+    elif call['w'] == 'pool':
+        if not fresh:
+            refill(pool['w'], np.linspace(0.5, 1.5, M * N).reshape(M, N), idx)
+        kw['weights'] = pool['w'].copy() if fresh else pool['w']
     elif call['w'] == 'bad':
         kw['weights'] = np.ones((sh[0] + 1, sh[1]))
     return data, kw
@@ -325,12 +342,13 @@ def run_history_2d(h, check_fresh=True):
     f = new_2d(x_in, z_in)
     recs = []
     diffs = []
+    pool = {'w': np.ones((M, N)), 'y': y.copy()}
     for i, call in enumerate(h['calls']):
-        args = None if call['m'] == 'set_solver' else call_args_2d(call, M, N, y)
+        args = None if call['m'] == 'set_solver' else call_args_2d(call, M, N, y, pool, i)
         ref = None
         if check_fresh and call['m'] != 'set_solver':
             g = fresh_2d(f, x_in, z_in)
-            ref = do_call(g, call, call_args_2d(call, M, N, y))
+            ref = do_call(g, call, call_args_2d(call, M, N, y, pool, i, fresh=True))
         res = do_call(f, call, args)
         recs.append((observe_2d(f) + [1 if res[0] == 'raise' else 0], res[0], res[1] if res[0] == 'raise' else None))
         if ref is not None and not any(d[2] == 'result' for d in diffs) and not same_result(res, ref):
